@@ -26,19 +26,19 @@ def _load(cid):
 
 def _one(i):
     chk, seed = core._CHECK, core._SEED
-    plan = chk.gen_plan(random.Random(core.run_seed(seed, chk.ID, i)), 'quick')
+    plan = core.norm(chk.gen_plan(random.Random(core.run_seed(seed, chk.ID, i)), 'quick'))
     o = chk.execute(plan)
     return i, o.digest, o.violation['kind'] if o.violation else None
 
 
-def digests(cid, seed, n, mode):
-    """mode: 'batch16' | 'batch1' | 'alone'"""
+def digests(cid, seed, n, mode, portable=False):
+    """mode: 'batch16' | 'batch1' | 'alone' | 'pools4'; portable: the digests that must also be equal under another string hash seed"""
     chk = _load(cid)
     chk.setup('quick')
     if mode in ('batch16', 'batch1', 'pools4'):
         hs = core.pool_hashseeds(seed, 4) if mode == 'pools4' else None
         agg = core.search(chk, 'quick', seed, 10 ** 6, 1 if mode == 'batch1' else 16, keep_digest=True, max_runs=n, stop_on_violation=False, hashseeds=hs)
-        return {str(k): v for k, v in agg.digests.items() if k >= 0}
+        return {str(k): v for k, v in (agg.portable if portable else agg.digests).items() if k >= 0}
     core._CHECK, core._TIER, core._SEED = chk, 'quick', seed
     out = {}
     # each run alone: a fresh forked process per run
@@ -68,11 +68,12 @@ def determinism(ids, seed):
             print('HARNESS-ERROR %s: fresh-interpreter digest run failed: %s' % (cid, (r.stdout + r.stderr)[-800:]))
             rc = 2
             continue
-        e = digests(cid, seed, n, 'pools4')
+        e = digests(cid, seed, n, 'pools4', portable=True)
+        ap = digests(cid, seed, n, 'batch16', portable=True)
         bad = []
-        for name, other in (('single worker batch', b), ('each run alone in a fresh process', c), ('fresh interpreter, PYTHONHASHSEED=12345', d),
-                            ('4 spawned worker pools under 4 different PYTHONHASHSEEDs', e)):
-            diff = sorted(k for k in a if other.get(k) != a[k])
+        for name, other, base in (('single worker batch', b, a), ('each run alone in a fresh process', c, a), ('fresh interpreter, PYTHONHASHSEED=12345', d, ap),
+                                  ('4 spawned worker pools under 4 different PYTHONHASHSEEDs', e, ap)):
+            diff = sorted(k for k in base if other.get(k) != base[k])
             if diff or len(other) != len(a):
                 bad.append((name, diff[:8], len(other)))
         print('%s: %d runs x 5 configurations in %.0fs -> %s' % (cid, n, time.time() - t0, 'identical digests' if not bad else 'DIVERGENCE %r' % (bad,)))
@@ -83,7 +84,7 @@ def determinism(ids, seed):
 
 
 def print_digests(cid, n, seed):
-    d = digests(cid.upper(), seed, int(n), 'batch16')
+    d = digests(cid.upper(), seed, int(n), 'batch16', portable=True)
     print(json.dumps(d))
     return 0
 
